@@ -3,8 +3,9 @@ import vlib
 from checks import statlib
 
 PROP = "C02"
-SIZES_Q = (100, 101, 127, 128, 131, 1000, 6271, 6272, 6273)
-SIZES_T = (100, 101, 127, 128, 129, 131, 255, 999, 1000, 4096, 6271, 6272, 6273, 10000, 20000)
+# 160, 321, 642, 1283, ... are the lengths where the cut-off rule holds with equality: n - k + 3 = 5 * 2^(k+2)
+SIZES_Q = (100, 101, 127, 128, 131, 159, 160, 161, 321, 642, 1000, 1283, 6271, 6272, 6273)
+SIZES_T = (100, 101, 127, 128, 129, 131, 159, 160, 161, 255, 320, 321, 322, 641, 642, 643, 999, 1000, 1283, 2564, 4096, 5125, 6271, 6272, 6273, 10000, 10246, 20000, 20487)
 MODES = ("uni", "bias25", "bias75", "const0", "const1", "alt", "step", "longrun", "longzero", "periodic", "stair")
 
 
